@@ -338,7 +338,8 @@ class C01(Property):
                   "on their path only. Wrapper call sites (REST, zrpc client/server, redis hook, every breaker-wrapped sqlx "
                   "method) resolve exactly once per their acceptability table. The model is tied to the code by white-box "
                   "differential execution under a virtual clock with injected draws; constants are re-extracted from the source "
-                  "and their side conditions re-proved at every run; pinned refuted variants for two seeded changes.")
+                  "and their side conditions re-proved at every run; a wrapper records an admitted call by its table whatever has "
+                  "become of the call's context when the downstream returns; pinned refuted variants for four seeded changes.")
     level_note = ("Trusted: Coq kernel + vm_compute; hand-written model; float64 vs exact rational arithmetic (near-ties "
                   "are skipped for agreement, the property check uses the property's own constants); overlay files "
                   "replace core/timex/relativetime.go and add a constructor to core/mathx.")
@@ -349,7 +350,11 @@ class C01(Property):
             "53-bit, 1-2^-53}; ~14% forced interleavings of 2..44 concurrent calls; ~10% systems of 2..4 breakers (plain / registry names "
             "differing in case, trailing blank, prefix; method or package-level helper; NoBreakerFor; call trees of depth 1..3 towards a "
             "downstream breaker that is open; a done-context call on every breaker at the end); ~8% wrapper cases (REST histories; gRPC "
-            "client/server, redis hook, 15 sqlx methods x error classes incl. wrapped sentinels, WithAcceptable options, scan failures). "
+            "client/server, redis hook, 15 sqlx methods x error classes incl. wrapped sentinels, WithAcceptable options, scan failures, x the "
+            "life of the call's context: live / cancelled before / cancelled or past its deadline when the downstream returns / past its "
+            "deadline before). A fixed corpus (independent of the seed) holds the boundaries of the law, every entry point x context x "
+            "outcome, every wrapper site x context life x its whole acceptability table, idle-then-burst, flapping-then-probe, slow "
+            "failing probes, a forced probe in flight under a forced schedule, REST chain scripts, nested / registry systems. "
             "non-trivial = (sequential) at least one rejection AND at least one throttled admission AND at least 3 entry points used, "
             "(concurrent) some call's start and finish are separated by another call's action AND at least one rejection, (multi) at "
             "least two breakers used AND a rejection; distinct = canonical JSON hash")
